@@ -954,6 +954,9 @@ def run(ck: Ck) -> None:
         ck.explain('instance:chain_get_joins_prefix')
     if any_key('chain-walk-entry-not-from-first-member', 'chain-walk-listed-name-not-found'):
         ck.explain('instance:chain_dedup_keeps_first_member')
+    if any_key('chain-walk-', 'chain-get-', 'walk-virtual-', 'walk-zip-', 'walk-vpk-', 'lookup-virtual-', 'lookup-zip-', 'lookup-vpk-'):
+        # the composition theorem needs sound backends, skip-de-duplication and prefix-relative names
+        ck.explain('instance-theorem:chain_walk_lookup_closed')
     if any_key('chain-walk-'):
         ck.explain('instance:chain_walk_in_member_order')
         ck.explain('instance:chain_dedup_ignores_case')
